@@ -8,6 +8,9 @@ from harness.sched import core, instr
 from harness import fakes3
 
 
+PROGRESS_YIELD = [False]     # set per run by library._run: on_progress is a scheduling point
+
+
 class RecordingSubscriber:
     """BaseSubscriber-compatible recorder; optional scripts run inside callbacks."""
 
@@ -58,6 +61,8 @@ class RecordingSubscriber:
     def on_progress(self, future, bytes_transferred, **kw):
         self.I.log('on_progress', sub=self.name, t=future.meta.transfer_id, n=bytes_transferred)
         self.events.append(('progress', bytes_transferred))
+        if PROGRESS_YIELD[0]:
+            self.I.sched.yield_point('on_progress')     # a user callback takes time: other threads run meanwhile
         if 'progress' in self.raise_in:
             raise self.raise_cls(f'{self.name}: on_progress raises')
 
